@@ -238,6 +238,7 @@ class FullStack(MempoolRun):
         if kind == 'bp':
             jobs = self.bp_jobs()
             if jobs:
+                self.before_bp_job(jobs[0])
                 jobs[0].execute()
                 jobs[0].deliver()
                 self.loop.run_until_idle()
@@ -366,6 +367,9 @@ class FullStack(MempoolRun):
         tiph = self.tree.blocks[self.best].height
         for h in range(tiph + 2):
             row = []
+            if h <= tiph:
+                # a proof request first: it works on the cached list of the block's tx hashes, which must come out unchanged
+                self.ask('probe', 'blockchain.transaction.id_from_pos', [h, 0, True])
             for pos in range(0, 6):
                 r = self.ask('probe', 'blockchain.transaction.id_from_pos', [h, pos])
                 row.append(self.hex_to_slot(r['result']) if 'result' in r else -1)
